@@ -154,13 +154,6 @@ theorem wf_ofAlignment {n : Nat} {a : Alignment} (h : a.Valid n) : WF n (ofAlign
   matePos_ok := h.nextPos
   tempLen_ok := h.tlen
   cigar_count := by simpa [ofAlignment] using h.cigar.1
-  cigar_ops := by
-    intro c hc
-    simp only [ofAlignment, List.mem_map] at hc
-    obtain ⟨p, hp, rfl⟩ := hc
-    have := h.cigar.2 p hp
-    simp only [cigarType, BitVec.toNat_ofNat]
-    omega
   seq_len := by simp [ofAlignment, packSeq_length]
   qual_len := h.qual
   aux_ok := by
